@@ -128,6 +128,37 @@ var contractBase = []string{
 }
 
 var propDocs = map[string]propDoc{
+	"C03": {
+		Explanation: "R7 (exhaustive over the 12 operators): Apply returns driver(inputs[0], inputs[1], K, MultidirectionalBroadcasting); K's returned term is the gorgonia kernel of the ONNX table applied to (A,B) in order, or - for And/Or/Xor - a closure whose truth table over {0,1}^2 is evaluated statically (0001/0111/0110); the driver's dynamic call op(x,y) has x from A / #0 and y from B / #1 of broadcast(A,B) in order, and the multidirectional mode runs the multidirectional helper; the boolean loop addresses A, B and the output with the same iterator coordinate. R6.T8 float32/float64/int32/int64 (bool) admitted at both positions. R10 Repeat only under extent==1; R23 the per-axis loops are left only when exhausted or with an error; R22 no (tensor.Shape).Eq in the broadcast path; R20 rank equalisation; R3/R21 operands and attribute state untouched. NOT decided: IEEE/wrap-around values, element placement inside gorgonia.",
+		Assumptions: contractBase,
+		Exhaustive:  true,
+	},
+	"C04": {
+		Explanation: "R16: the terms of every success return of Gemm/Scaler/LinearRegressor.Apply (SSA values rendered over gorgonia calls, inputs P1[k] and attribute fields) must equal the ONNX dependency shapes, with A/B = phi(input | Transpose(input)) whose Transpose edge is guarded by its own flag; any other success path is a violation. LinearRegressor.Init reshapes coefficients to (targets, n/targets) and transposes. MatMul: the batch-broadcast loop starts at len-3; R10 its Repeats are guarded by extent==1. R6.T8 float32 admitted; R8 attributes honoured or refused; R3/R21 operands, attribute tensors (which alias protobuf storage) and attribute fields untouched. NOT decided: numeric accuracy, MatMul's vector promotion for every rank combination, gorgonia's MatMul/Transpose.",
+		Assumptions: contractBase,
+	},
+	"C05": {
+		Explanation: "R11 on Conv's methods. K1: every IndexAddr whose list has a known kind (FULL = Shape()/coords/make(len(FULL)), SPATIAL = strides/dilations/kernelShape/FULL[2:]/variadic coords, PADS = pads/make(2*spatial)) is classified by its index kind (CONST, NONSPATIAL = loop < 2, SPATIAL = loop < spatial count / range over a SPATIAL list, SPATIAL+2, SPATIAL+nSpatial, FULL-RANGE, PADS-RANGE) against a legality matrix. K2: per sliding-window function and spatial axis k: window start phi from 0 step strides[k] bounded by Shape(padded)[2+k]; output index start/strides[k] compared with outputShape[2+k] and stored at SetAt position 2+k. K3: batch index = window sample = SetAt position 0 over x.Shape()[0]; kernel[m:m+1] stored at position 1. K4: all AutoPadSetting constants are compared against in Apply's closure (at most one else-class) and Init rejects other strings. R8 attributes; R3 bias not modified; R21 Apply works on a copy of the operator. NOT decided: the multiply-accumulate, dilation zero insertion, padding by Concat.",
+		Assumptions: contractBase,
+	},
+	"C06": {
+		Explanation: "R12 per operator (RNN 1 gate, GRU 3, LSTM 4): P1 block extractors request (gates,3)/(2*gates,2)/(3,2) blocks and return block k as result k; P3 at every gate call the callee's parameter roles are derived from how it feeds its two Gemm helpers (input Gemm = the one receiving the time slice), then W and R must be the same block k of inputs[1]/inputs[2] and the biases the unordered pair {B[k],B[k+gates]} of inputs[3] (or its zero default), every slot used exactly once; P4 LSTM cell update/peepholes/activation roles, GRU state update term (1-z)(.)h + z(.)H_prev, reset-gate forms under linear_before_reset, Gemm helper literals {transB, alpha=beta=1}; P5 loop-carried state appended per step, Y_h/Y_c are Clone()s of the final phi and distinct objects; P2 initial states phi(inputs[5|6], zeros(1,batch,hidden)); P6 reshape argument terms; P7 X.Slice([t,t+1), nil, nil). R8 every handled attribute refused or stored in a field that is read; R9c activations[k] under a rejecting length check; R18, R10, R3, R21, R6.T8. NOT decided: arithmetic of a step, float64 support, numeric whole-vs-split agreement.",
+		Assumptions: contractBase,
+	},
+	"C10": {
+		Explanation: "R7 unary (17 rows, exhaustive): generic closures: per Dtype case the instance's type argument equals the case's Go type and its body term is math.F(P0) with calls only into package math; Abs/Tanh terms; Sigmoid term Div(1,Add(1,Exp(Neg(x)))); Relu term MaxBetween(x,0); Not truth table 10; PRelu: UnidirectionalBroadcast(x, slope) in that order and, in every kernel instance, the stored element is phi(x, slope*x) with the product computed under x < 0. R18: no tensor.Mul with a comparison-kernel result as operand (positive control BadSelectByMul). R20 scalar wrapper before slice assertions. R6.T8, R3, R21. NOT decided: rounding error bounds, gorgonia's Tanh/Exp/Abs.",
+		Assumptions: contractBase,
+		Exhaustive:  true,
+	},
+	"C11": {
+		Explanation: "R14 (AST + go/types, exhaustive): target switch: 10 numeric codes -> createNewBacking[B, Go(code)], 7 non-numeric codes and default -> error; source switch: 10 dtype cases assert []Go(dtype), default -> error, result WithShape(t.Shape()...); element converter out[i] = R(in[i]); alias-flow: every converter instantiation reachable from Cast.Apply is applied to the asserted backing itself; R20: the scalar wrapper covers every source type Cast's gate admits. Constant: name->getter->type table (value_float GetF float32, value_floats []float32, value_int int64, value_ints []int64, value TensorProto), refusals, one attribute exactly. ConstantOfShape: float32(0) default, Len()!=1 refused, non-positive extents refused, dtype from the value tensor. R8, R21. NOT decided: nothing structural; conversion semantics are Go's.",
+		Assumptions: []string{"go/types models the program faithfully", "Go's numeric conversions are the C-style conversions the property names (language specification)"},
+		Exhaustive:  true,
+	},
+	"C16": {
+		Explanation: "NOT decided: the property itself (numeric equality of batched and per-sample evaluation) - no static argument in reach bounds it. Decided are structural necessary conditions: R11.K2/K3 Conv's window sample index is the SetAt sample index over x.Shape()[0]; R12.P6 recurrent outputs are reshaped with X.Shape()[0], X.Shape()[1]; R12.P7 the per-step slice cuts axis 0 only; R10 every tensor.Repeat reachable from Conv/Gemm/MatMul/RNN/GRU/LSTM is guarded by extent==1; R21 Apply does not store input-derived state in the operator.",
+		Assumptions: contractBase,
+	},
 	"C07": {
 		Explanation: "R9 (forward taint from the frozen axis-source table: Flatten.axis, Squeeze inputs[1], Unsqueeze inputs[1]): R9a every Go-level use (index, slice bound, selection against a dimension index) of the user value is dominated by a rejecting lower AND upper bound on a value of the same taint set - at the use, at every call site passing the tainted value, on the tainted edges of a merge, or on the err==nil edge of a library callee that validates on every success return; ops.AllInRange-style checkers count two-sided unless a bound is an extreme constant. R9b the value used derives from `x + rank` computed under `x < 0`. R9c axis sets are sorted and a duplicate returns an error. R3 (E2) clone-before-Reshape: no Reshape on borrowed storage in the five operators. R20 a Data() value asserted to a slice type passes the scalar wrapper first. NOT decided: gorgonia's Reshape contract (row-major order kept, count mismatch rejected), processShape's -1 arithmetic.",
 		Assumptions: contractBase,
